@@ -283,23 +283,29 @@ def legacyExec (style : Nat) (final : Bool) (s p r : Bytes) : Bytes :=
 def legacyFlush (style : Nat) (st : Legacy) : Legacy :=
   ⟨[], [], [], st.out ++ legacyExec style false st.sys st.prompt st.resp⟩
 
-def legacyStep (style : Nat) (st : Legacy) (m : RMsg) : Legacy :=
+/-- one step of the legacy loop.  `lfix = false` is the pinned code (finding F4b: a pending
+    turn is overwritten when its slot is written again before a flush); `lfix = true` is the
+    proposed repair (flush whenever the slot about to be written is occupied). -/
+def legacyStep (lfix : Bool) (style : Nat) (st : Legacy) (m : RMsg) : Legacy :=
   match m.1 with
   | .system =>
-    let st := if !st.prompt.isEmpty || !st.resp.isEmpty then legacyFlush style st else st
+    let st := if (lfix && !st.sys.isEmpty) || !st.prompt.isEmpty || !st.resp.isEmpty
+      then legacyFlush style st else st
     { st with sys := m.2 }
   | .user =>
-    let st := if !st.resp.isEmpty then legacyFlush style st else st
+    let st := if (lfix && !st.prompt.isEmpty) || !st.resp.isEmpty then legacyFlush style st else st
     { st with prompt := m.2 }
-  | .assistant => { st with resp := m.2 }
+  | .assistant =>
+    let st := if lfix && !st.resp.isEmpty then legacyFlush style st else st
+    { st with resp := m.2 }
   | _ => st
 
-def renderLegacy (style : Nat) (msgs : List RMsg) : Bytes :=
-  let st := (collateMsgs msgs).foldl (legacyStep style) ⟨[], [], [], []⟩
+def renderLegacy (lfix : Bool) (style : Nat) (msgs : List RMsg) : Bytes :=
+  let st := (collateMsgs msgs).foldl (legacyStep lfix style) ⟨[], [], [], []⟩
   st.out ++ legacyExec style true st.sys st.prompt st.resp
 
-def render (style : Nat) (msgs : List RMsg) : Bytes :=
-  if style = 0 ∨ style = 3 then renderMessagesStyle style msgs else renderLegacy style msgs
+def render (lfix : Bool) (style : Nat) (msgs : List RMsg) : Bytes :=
+  if style = 0 ∨ style = 3 then renderMessagesStyle style msgs else renderLegacy lfix style msgs
 
 def toRMsg (m : Msg) : RMsg := (m.role, renderPieces m.content)
 
